@@ -26,7 +26,9 @@ Inductive event :=
 | EvAlloc (p : N) (r : bool)   (* GC_Set registered p with root flag r *)
 | EvRem (p : N)                (* GC_Rem(p) was issued while the collector was running *)
 | EvReclaim (p : N)            (* GC_Sweep took p out of the table (unmarked, not a root) *)
-| EvFin (p : N).               (* dealloc(destruct(p)) ran *)
+| EvFin (p : N)                (* dealloc(destruct(p)) ran *)
+| EvSpawn (p : N) (r : bool)   (* GC_Set registered p, called from a destructor *)
+| EvViol.                      (* ghost: the run left the scope of the model (see spawn_set) *)
 
 (* ------------------------------------------------------------------ specification *)
 (* the set of (address, root flag) that are "allocated and neither deleted nor reclaimed"
@@ -38,6 +40,8 @@ Fixpoint led (l : list event) (q : N) (s : bool) : Prop :=
   | EvRem p :: t => led t q s /\ q <> p
   | EvReclaim p :: t => led t q s /\ q <> p
   | EvFin _ :: t => led t q s
+  | EvSpawn p r :: t => (q = p /\ s = r) \/ led t q s
+  | EvViol :: t => led t q s
   end.
 
 (* executable form, used by the correspondence driver as the oracle *)
@@ -51,6 +55,8 @@ Fixpoint led_list (l : list event) : list (N * bool) :=
   | EvRem p :: t => drop_ptr p (led_list t)
   | EvReclaim p :: t => drop_ptr p (led_list t)
   | EvFin _ :: t => led_list t
+  | EvSpawn p r :: t => (p, r) :: led_list t
+  | EvViol :: t => led_list t
   end.
 
 (* ------------------------------------------------------------------ the registry *)
@@ -102,6 +108,9 @@ Definition null_out (p : N) (pl : list (option N)) : list (option N) :=
 Definition is_pending (p : N) (pl : list (option N)) : bool :=
   existsb (fun x => match x with Some q => N.eqb q p | None => false end) pl.
 
+(* is address p in the table?  (plain scan, independent of the hashing) *)
+Definition is_reg (l : list gslot) (p : N) : bool := existsb (fun e => N.eqb (ptr e) p) (entries gentry l).
+
 Fixpoint upd_opt (k : nat) (pl : list (option N)) : list (option N) :=
   match pl, k with
   | [], _ => []
@@ -115,6 +124,7 @@ Section Registry.
   Variable primes : list N.
   Variables num den : N.
   Variable owns : N -> list N.             (* what the destructor of an object deletes *)
+  Variable spawns : N -> list (N * bool).  (* what it allocates afterwards: (address, root flag) *)
   (* shape of the pending-list handling (tools/genx_gcreg.py reads it off the source):
      rem_fin    : GC_Rem_Ptr finalises an object it finds in the pending list and returns
      null_first : GC_Sweep's finaliser loop clears the pending slot before finalising it *)
@@ -158,11 +168,50 @@ Section Registry.
     | None => None
     end.
 
+  Inductive out := OOk | OBool (b : bool)
+  | OCrash      (* the C code would compute `% 0` here *)
+  | OFuel.      (* a loop of the model ran out of fuel: excluded by theorem *)
+
   (* ---------------------------------------------------------------- removal *)
-  (* dealloc(destruct(q)): the destructor hands every object it owns to `del`, i.e. GC_Rem *)
+  (* the part of GC_Set before the threshold test: count, bounds, Resize_More, Set_Ptr *)
+  Definition gc_register (g : gc) (p : N) (r : bool) (ev : event) : gc * out :=
+    let g1 := set_bounds (set_nitems g (S (nitems g))) (N.min p (minptr g)) (N.max p (maxptr g)) in
+    match resize_more g1 with
+    | None => (g, OFuel)
+    | Some g2 =>
+      if nslots g2 =? 0 then (g, OCrash) else
+      match rh_insert (slots g2) (home p (nslots g2)) (mkE p r false) with
+      | None => (g, OFuel)
+      | Some (sl, _) => (log (set_slots g2 sl) ev, OOk)
+      end
+    end.
+
+  (* GC_Set called from a destructor (alloc / alloc_root inside a finaliser).  While a sweep is
+     running (gc->freelist isnt NULL, i.e. the pending list is not empty) the object is
+     registered and GC_Set returns before the threshold test.  Two situations are outside the
+     model and only flagged (EvViol): the allocator hands out an address that is still registered
+     or pending (impossible for a real allocator; nothing is done), and a destructor running
+     outside a sweep crosses the threshold (the C code would start a nested collection; the
+     object is registered, the collection is not modelled). *)
+  Definition spawn_set (g : gc) (pr : N * bool) : option gc :=
+    let (p, r) := pr in
+    if negb (running g) then Some g else
+    if is_reg (slots g) p || is_pending p (pending g) then Some (log g EvViol) else
+    match gc_register g p r (EvSpawn p r) with
+    | (g3, OOk) =>
+      match pending g3 with
+      | [] => if mitems g3 <? nitems g3 then Some (log g3 EvViol) else Some g3
+      | _ => Some g3
+      end
+    | _ => None
+    end.
+
+  (* dealloc(destruct(q)): the destructor hands every object it owns to `del`, i.e. GC_Rem,
+     then allocates what it spawns *)
   Definition finalise_with (rem : gc -> N -> option gc) (g : gc) (q : N) : option gc :=
-    fold_left (fun og t => match og with Some g1 => rem g1 t | None => None end)
-              (owns q) (Some (log g (EvFin q))).
+    fold_left (fun og pr => match og with Some g1 => spawn_set g1 pr | None => None end) (spawns q)
+      (fold_left (fun og t => match og with Some g1 => rem g1 t | None => None end)
+                 (owns q) (Some (log g (EvFin q)))).
 
   (* GC_Rem = running test; GC_Rem_Ptr; GC_Resize_Less; mitems.  `f` bounds the nesting of
      destructor-issued removals. *)
@@ -308,10 +357,6 @@ Section Registry.
     end.
 
   (* ---------------------------------------------------------------- GC_Set *)
-  Inductive out := OOk | OBool (b : bool)
-  | OCrash      (* the C code would compute `% 0` here *)
-  | OFuel.      (* a loop of the model ran out of fuel: excluded by theorem *)
-
   Definition collect (g : gc) (ws : list N) : gc * out :=
     match gc_mark g ws with
     | None => (g, OFuel)
@@ -322,17 +367,9 @@ Section Registry.
   (* GC_Set(gc, p, root): count first, bounds, Resize_More, Set_Ptr, threshold collection *)
   Definition gc_set (g : gc) (p : N) (r : bool) (ws : list N) : gc * out :=
     if negb (running g) then (g, OOk) else
-    let g1 := set_bounds (set_nitems g (S (nitems g))) (N.min p (minptr g)) (N.max p (maxptr g)) in
-    match resize_more g1 with
-    | None => (g, OFuel)
-    | Some g2 =>
-      if nslots g2 =? 0 then (g, OCrash) else
-      match rh_insert (slots g2) (home p (nslots g2)) (mkE p r false) with
-      | None => (g, OFuel)
-      | Some (sl, _) =>
-        let g3 := log (set_slots g2 sl) (EvAlloc p r) in
-        if mitems g3 <? nitems g3 then collect g3 ws else (g3, OOk)
-      end
+    match gc_register g p r (EvAlloc p r) with
+    | (g3, OOk) => if mitems g3 <? nitems g3 then collect g3 ws else (g3, OOk)
+    | x => x
     end.
 
   Inductive op :=
